@@ -492,6 +492,15 @@ unsafe impl<T, const D: usize> TensorRef<T, D> for Tensor<T, D> {
         // it does not make any sense to just use `unwrap` here. The trait documents that
         // it's undefind behaviour to call this method with an out of bounds index, so we
         // can assume the None case will never happen.
+        #[cfg(feature = "verif-hooks")]
+        {
+            let in_bounds = (0..D).all(|d| indexes[d] < self.shape[d].1);
+            let consistent = self.data.len() == self.shape.iter().map(|d| d.1 as u128).product::<u128>() as usize
+                && self.shape.iter().map(|d| d.1 as u128).product::<u128>() <= usize::MAX as u128;
+            if !in_bounds || !consistent {
+                panic!("EASYML-VERIF-HOOK: tensor unchecked access {:?} shape {:?} stored {}", indexes, self.shape, self.data.len());
+            }
+        }
         let i = get_index_direct(&indexes, &self.strides, &self.shape).unwrap_unchecked();
         self.data.get_unchecked(i)
     }
@@ -516,6 +525,15 @@ unsafe impl<T, const D: usize> TensorMut<T, D> for Tensor<T, D> {
         // it does not make any sense to just use `unwrap` here. The trait documents that
         // it's undefind behaviour to call this method with an out of bounds index, so we
         // can assume the None case will never happen.
+        #[cfg(feature = "verif-hooks")]
+        {
+            let in_bounds = (0..D).all(|d| indexes[d] < self.shape[d].1);
+            let consistent = self.data.len() == self.shape.iter().map(|d| d.1 as u128).product::<u128>() as usize
+                && self.shape.iter().map(|d| d.1 as u128).product::<u128>() <= usize::MAX as u128;
+            if !in_bounds || !consistent {
+                panic!("EASYML-VERIF-HOOK: tensor unchecked access {:?} shape {:?} stored {}", indexes, self.shape, self.data.len());
+            }
+        }
         let i = get_index_direct(&indexes, &self.strides, &self.shape).unwrap_unchecked();
         self.data.get_unchecked_mut(i)
     }
